@@ -182,6 +182,9 @@ func c13(c *Check) {
 		return []string{"go-ethereum/common.HexToAddress(" + p + ".ERC20Address)", "aggregate/types.(TokenPair).GetERC20Contract(" + p + ")"}
 	})
 
+	c.Rule("C13/packet-genesis-binding", "each field of the packet GenesisState is exported from and imported into its own key family, with (src,dst,seq[,data]) in order", 8)
+	packetGenesisBinding(c, "C13/packet-genesis-binding")
+
 	c.Rule("C13/fresh-decode-target", "a value decoded inside an iterator loop is decoded into a target allocated in that loop iteration (protobuf Unmarshal appends to repeated fields of a reused target, so a hoisted target accumulates the entries of earlier iterations into later ones)", 3)
 	freshDecodeRule(c, "C13/fresh-decode-target")
 
